@@ -43,12 +43,16 @@ func init() {
 }
 
 func genReplStream(g *gen, n int, tier string, w *bufio.Writer) {
-	classes := []string{"pollfail", "hbfail", "sameaddr", "mixed"}
+	classes := []string{"pollfail", "hbfail", "sameaddr", "mixed", "ackchurn", "topology"}
 	c0 := g.intn(len(classes))
 	for c := 0; c < n; c++ {
 		cls := classes[(c+c0)%len(classes)]
 		fmt.Fprintf(w, "# case %d %s\n", c, cls)
-		fmt.Fprintf(w, "cfg class=%s hb=150 to=900\n", cls)
+		if cls == "ackchurn" {
+			fmt.Fprintf(w, "cfg class=%s hb=150 to=900 preflush=%d\n", cls, 2+g.intn(3))
+		} else {
+			fmt.Fprintf(w, "cfg class=%s hb=150 to=900\n", cls)
+		}
 		switch cls {
 		case "pollfail":
 			// a lagging reader (never acknowledges: the polling sender keeps re-sending to it) whose connection starts failing
@@ -100,6 +104,40 @@ func genReplStream(g *gen, n int, tier string, w *bufio.Writer) {
 			fmt.Fprintln(w, "caughtup new 4000")
 			fmt.Fprintln(w, "listed new")
 			fmt.Fprintln(w, "acks new")
+		case "topology":
+			// the reported topology follows the sessions: a stream whose connection fails on a write's broadcast is not reported as
+			// connected any more - asked with nothing but the topology query itself (no acknowledgement, no registration in between)
+			fmt.Fprintln(w, "stream h addr=h:1 start=1 ack=0") // nobody acknowledges in this class: nothing but sends touches the sessions
+			fmt.Fprintln(w, "stream x addr=x:1 start=1 ack=0")
+			fmt.Fprintf(w, "load %d 20\n", 2+g.intn(4))
+			fmt.Fprintln(w, "topo x 1")
+			fmt.Fprintln(w, "topo h 1")
+			fmt.Fprintln(w, "setsend x fail")
+			fmt.Fprintln(w, "quiet h") // the healthy stream stops acknowledging for a while: nothing but the failing send touches the sessions
+			fmt.Fprintf(w, "load %d 20\n", 2+g.intn(4))
+			fmt.Fprintf(w, "sleep %d\n", 50+g.intn(100))
+			fmt.Fprintln(w, "topo x 0")
+			fmt.Fprintln(w, "topo h 1")
+			fmt.Fprintln(w, "cutctx x")
+			fmt.Fprintln(w, "watchdrop x 2500")
+		case "ackchurn":
+			// several closed log files exist (so that every acknowledgement makes the retention pass look at files), two streams
+			// acknowledge everything they get while a client writes continuously, and further streams come and go (registering and
+			// unregistering sessions takes the primary's lock exclusively): writes, acknowledgements and registrations must never
+			// wait for each other for good
+			fmt.Fprintln(w, "stream h addr=h:1 start=1 ack=1")
+			fmt.Fprintln(w, "stream g addr=g:1 start=1 ack=1")
+			fmt.Fprintf(w, "bgload %d %d\n", 1500+g.intn(1500), 10+g.intn(40))
+			for i, m := 0, 10+g.intn(10); i < m; i++ {
+				fmt.Fprintf(w, "stream t%d addr=t%d:1 start=1 ack=%d\n", i, i, g.intn(2))
+				fmt.Fprintf(w, "sleep %d\n", 5+g.intn(40))
+				fmt.Fprintf(w, "cutctx t%d\n", i)
+			}
+			fmt.Fprintln(w, "bgwait")
+			fmt.Fprintln(w, "get 0")
+			fmt.Fprintln(w, "caughtup h 6000")
+			fmt.Fprintln(w, "listed h")
+			fmt.Fprintln(w, "acks h")
 		default: // mixed: random bounded faults on two of three streams
 			fmt.Fprintln(w, "stream h addr=h:1 start=1 ack=1")
 			fmt.Fprintln(w, "stream a addr=a:1 start=1 ack="+g.pickS("0", "1"))
@@ -135,13 +173,14 @@ func genReplStream(g *gen, n int, tier string, w *bufio.Writer) {
 // ---------- fake stream ----------
 
 type rsStream struct {
-	id      string
-	addr    string
-	ctx     context.Context
-	cancel  context.CancelFunc
-	header  chan metadata.MD
-	session string
-	doAck   bool
+	id       string
+	addr     string
+	ctx      context.Context
+	cancel   context.CancelFunc
+	header   chan metadata.MD
+	session  string
+	doAck    bool
+	doAckOff bool // set by `quiet` (under mu)
 
 	mu       sync.Mutex
 	mode     string // ok | fail | hangfail
@@ -183,7 +222,7 @@ func (s *rsStream) Send(m *rproto.WALStreamResponse) error {
 		s.maxSeq = top
 	}
 	s.mu.Unlock()
-	if s.doAck && top > 0 {
+	if s.doAck && !s.doAckOff && top > 0 {
 		select {
 		case s.ackCh <- top:
 		default:
@@ -213,6 +252,15 @@ type rsRun struct {
 	streams map[string]*rsStream
 	nput    int
 	bad     []string
+	badMu   sync.Mutex
+	bg      chan string
+}
+
+// note: record a problem (also called from the background loader)
+func (x *rsRun) note(s string) {
+	x.badMu.Lock()
+	x.bad = append(x.bad, s)
+	x.badMu.Unlock()
 }
 
 func (x *rsRun) guarded(what string, f func() error) string {
@@ -228,12 +276,12 @@ func (x *rsRun) guarded(what string, f func() error) string {
 	select {
 	case err := <-done:
 		if err != nil {
-			x.bad = append(x.bad, "failed op="+what)
+			x.note("failed op=" + what)
 			return "failed op=" + what + " err=" + errTok(err)
 		}
 		return ""
 	case <-time.After(5 * time.Second):
-		x.bad = append(x.bad, "blocked op="+what)
+		x.note("blocked op=" + what)
 		return "blocked op=" + what
 	}
 }
@@ -278,6 +326,17 @@ func (x *rsRun) step(ws []string) string {
 			return "err open " + errTok(err)
 		}
 		x.e = e
+		for _, w := range ws[1:] { // preflush=<k>: k earlier generations of writes, each flushed (a log rotation): closed log files exist
+			if strings.HasPrefix(w, "preflush=") {
+				k, _ := strconv.Atoi(w[9:])
+				for i := 0; i < k; i++ {
+					for j := 0; j < 20; j++ {
+						e.Put([]byte(fmt.Sprintf("pre%d-%d", i, j)), []byte("p"))
+					}
+					e.FlushImMemTables()
+				}
+			}
+		}
 		p, err := replication.NewPrimary(e.GetWAL(), &replication.PrimaryConfig{MaxBatchSizeKB: 256,
 			CompressionCodec: rproto.CompressionCodec_NONE, RespectTxBoundaries: true,
 			HeartbeatConfig: &replication.HeartbeatConfig{Interval: time.Duration(hb) * time.Millisecond,
@@ -382,6 +441,36 @@ func (x *rsRun) step(ws []string) string {
 			x.nput++
 		}
 		return fmt.Sprintf("ok n=%d", n)
+	case "bgload": // bgload <n> <vlen>: n puts in the background (each under the watchdog); `bgwait` collects the outcome
+		n, _ := strconv.Atoi(ws[1])
+		vlen, _ := strconv.Atoi(ws[2])
+		x.bg = make(chan string, 1)
+		base := x.nput
+		x.nput += n
+		go func() {
+			for i := 0; i < n; i++ {
+				k := []byte(fmt.Sprintf("k%05d", base+i))
+				v := []byte(strings.Repeat("v", vlen))
+				if r := x.guarded("put", func() error { return x.e.Put(k, v) }); r != "" {
+					x.bg <- r
+					return
+				}
+			}
+			x.bg <- fmt.Sprintf("ok n=%d", n)
+		}()
+		return "ok"
+	case "bgwait":
+		if x.bg == nil {
+			return "bad-op"
+		}
+		select {
+		case r := <-x.bg:
+			x.bg = nil
+			return r
+		case <-time.After(90 * time.Second):
+			x.bad = append(x.bad, "blocked op=bgload")
+			return "blocked op=bgload"
+		}
 	case "commit":
 		n, _ := strconv.Atoi(ws[1])
 		r := x.guarded("commit", func() error {
@@ -414,6 +503,35 @@ func (x *rsRun) step(ws []string) string {
 			return r
 		}
 		return "ok"
+	case "quiet": // quiet <id>: the stream stops acknowledging from now on
+		s := x.streams[ws[1]]
+		if s == nil {
+			return "bad-op"
+		}
+		s.mu.Lock()
+		s.doAckOff = true
+		s.mu.Unlock()
+		return "ok"
+	case "topo": // topo <id> <want>: is the stream's listener address in GetReplicaInfo() — asked with the topology query ALONE
+		s := x.streams[ws[1]]
+		if s == nil {
+			return "bad-op"
+		}
+		got := 0
+		if r := x.guarded("topology", func() error {
+			for _, n := range x.p.GetReplicaInfo() {
+				if n.Address == s.addr {
+					got = 1
+				}
+			}
+			return nil
+		}); r != "" {
+			return r
+		}
+		if strconv.Itoa(got) != ws[2] {
+			x.note(fmt.Sprintf("topology %s reported=%d expected=%s", s.id, got, ws[2]))
+		}
+		return fmt.Sprintf("topo %d", got)
 	case "listed":
 		s := x.streams[ws[1]]
 		if s == nil {
